@@ -724,9 +724,15 @@ pub fn run_mc(args: &Args, witness_focus: bool) {
         n += 1;
         let mut ctx = Context::default();
         let g = gen_mc_sys(&mut ctx, &mut r, &cfg, &mut stats);
-        let k = match g.depth_hint {
-            Some(v) if r.chance(3, 4) => r.range(v.saturating_sub(1).max(1), (v + 3).min(kmax)),
-            _ => r.range(1, kmax),
+        // "all bounds k" includes the bound 0 (the mc tool passes it for systems without states)
+        let k = if r.chance(1, 12) {
+            stats.inc("bound_zero");
+            0
+        } else {
+            match g.depth_hint {
+                Some(v) if r.chance(3, 4) => r.range(v.saturating_sub(1).max(1), (v + 3).min(kmax)),
+                _ => r.range(1, kmax),
+            }
         };
         if witness_focus {
             // keep only systems that fail under z3
